@@ -314,16 +314,16 @@ theorem loop_sat (t : α) (I : St α V → Loc V → Prop) (J : St α V → Loc 
 /-- the one unfolding of `compute`: some number of loop passes from the state after the initial phase, then either the
     exception exit (state as the loop left it) or `finalize` -/
 theorem compute_cases (maxit : Int) (tol : α) (s0 : St α V) :
-    ∃ fuel, (fuel = if (initPhase K s0).2.2 then min c.n maxit.toNat else 0) ∧
-      (compute K c maxit tol s0).l = (loop K c (K.tolL2 tol c.n) fuel 0 (initPhase K s0).1 (initPhase K s0).2.1).2.1 ∧
-      (compute K c maxit tol s0).exit = (loop K c (K.tolL2 tol c.n) fuel 0 (initPhase K s0).1 (initPhase K s0).2.1).2.2 ∧
-      (compute K c maxit tol s0).initOk = (initPhase K s0).2.2 ∧
+    ∃ fuel, (fuel = if (initPhase K (reset s0)).2.2 then min c.n maxit.toNat else 0) ∧
+      (compute K c maxit tol s0).l = (loop K c (K.tolL2 tol c.n) fuel 0 (initPhase K (reset s0)).1 (initPhase K (reset s0)).2.1).2.1 ∧
+      (compute K c maxit tol s0).exit = (loop K c (K.tolL2 tol c.n) fuel 0 (initPhase K (reset s0)).1 (initPhase K (reset s0)).2.1).2.2 ∧
+      (compute K c maxit tol s0).initOk = (initPhase K (reset s0)).2.2 ∧
       (((∃ i, (compute K c maxit tol s0).exit = .rrThrew i) ∧ (compute K c maxit tol s0).threw = true ∧
-          (compute K c maxit tol s0).s = (loop K c (K.tolL2 tol c.n) fuel 0 (initPhase K s0).1 (initPhase K s0).2.1).1) ∨
+          (compute K c maxit tol s0).s = (loop K c (K.tolL2 tol c.n) fuel 0 (initPhase K (reset s0)).1 (initPhase K (reset s0)).2.1).1) ∨
        ((∀ i, (compute K c maxit tol s0).exit ≠ .rrThrew i) ∧ (compute K c maxit tol s0).threw = false ∧
           (compute K c maxit tol s0).s = finalize K c (K.tolL2 tol c.n)
-            (loop K c (K.tolL2 tol c.n) fuel 0 (initPhase K s0).1 (initPhase K s0).2.1).1
-            (loop K c (K.tolL2 tol c.n) fuel 0 (initPhase K s0).1 (initPhase K s0).2.1).2.1)) := by
+            (loop K c (K.tolL2 tol c.n) fuel 0 (initPhase K (reset s0)).1 (initPhase K (reset s0)).2.1).1
+            (loop K c (K.tolL2 tol c.n) fuel 0 (initPhase K (reset s0)).1 (initPhase K (reset s0)).2.1).2.1)) := by
   refine ⟨_, rfl, ?_⟩
   unfold compute
   simp only []
@@ -424,22 +424,36 @@ theorem initPhase_ok_iff (s0 : St α V) :
   repeat' split
   all_goals simp_all
 
-/-- accepted by the inner solver's constructor ⇔ `1 ≤ nev < min(10, rows - 1)` -/
-theorem innerGuard_iff (nev rows : Nat) : innerGuard nev rows = true ↔ 1 ≤ nev ∧ nev < 10 ∧ nev + 1 < rows := by
-  unfold innerGuard Gen.Guard.herm_ctor_rvalue
+/-- accepted by the inner solver's constructor ⇔ `1 ≤ nev ≤ rows - 1`: with `ncv = min(10, rows - 1)`, replaced by
+    `min(rows, 2 nev)` when that is `≤ nev`, the conditions `nev < ncv ≤ rows` hold whenever the pencil has more rows than `nev` -/
+theorem innerGuard_iff (nev rows : Nat) : innerGuard nev rows = true ↔ 1 ≤ nev ∧ nev + 1 ≤ rows := by
+  unfold innerGuard innerNcv Gen.Guard.herm_ctor_rvalue
   simp only [Bool.or_eq_true, decide_eq_true_eq]
-  constructor
-  · intro h
-    split at h
-    · exact absurd h (by decide)
-    · split at h
+  by_cases hc : min 10 ((rows : Int) - 1) ≤ (nev : Int)
+  · rw [if_pos hc]
+    constructor
+    · intro h
+      split at h
       · exact absurd h (by decide)
-      · omega
-  · intro h
-    rw [if_neg (by omega), if_neg (by omega)]
-    decide
+      · split at h
+        · exact absurd h (by decide)
+        · omega
+    · intro h
+      rw [if_neg (by omega), if_neg (by omega)]
+      decide
+  · rw [if_neg hc]
+    constructor
+    · intro h
+      split at h
+      · exact absurd h (by decide)
+      · split at h
+        · exact absurd h (by decide)
+        · omega
+    · intro h
+      rw [if_neg (by omega), if_neg (by omega)]
+      decide
 
-/-- a completed iteration means the inner solver's constructor accepted `(nev, min(10, rows-1))` on `rows = nev + bs (+ bs)` -/
+/-- a completed iteration means the inner solver's constructor accepted `(nev, innerNcv nev rows)` on `rows = nev + bs (+ bs)` -/
 theorem step_guard (t : α) (iter : Nat) (s : St α V) (l : Loc V) :
     (step K c t iter s l).Sat
       (fun _ _ => ∃ bs, 0 < bs ∧ bs ≤ c.nev ∧ innerGuard c.nev (c.nev + bs + (if iter > 0 then bs else 0)) = true)
